@@ -444,6 +444,24 @@ Proof.
   - exact (d_panic w D).
 Qed.
 
+(* The dispatch itself, in every state (reachable or not): a notification frame carrying server id x is
+   handed to exactly the subscription the abstract ownership table of Spec.v ([spec_route]) gives for
+   x when read off the active table, and is dropped (the state does not change) when x has no owner. *)
+Lemma alookup_tab_find (i : N) (l : list (N * nat)) : alookup i l = tab_find i l.
+Proof. induction l as [|[j u] l IH]; cbn; [reflexivity|]. destruct (i =? j)%N; [reflexivity|exact IH]. Qed.
+
+Theorem ws_notification_dispatch :
+  forall w x t, w_rpc w = RIdle ->
+    wstep w (EFrame (FNotif (Some x) t)) =
+      Some (match spec_route (w_act w) x with Some s => set_rpc w (RNotify s x t) | None => w end) /\
+    (forall t', wstep w (EFrame (FNotif None t')) = Some w).
+Proof.
+  intros w x t H. split.
+  - unfold wstep. rewrite H. unfold getActiveSub, spec_route. rewrite alookup_tab_find.
+    destruct (tab_find x (w_act w)); reflexivity.
+  - intros t'. unfold wstep. rewrite H. reflexivity.
+Qed.
+
 (* Without the first hypothesis the statement is false of the model (D18c): the receive loop has taken
    the confirmation of subscription 0 (server id 7) off the pending table when the connection drops;
    handleReconnect clears the tables and re-requests 0; the receive loop then records 7 as active; the
@@ -460,18 +478,24 @@ Definition routing_witness : list wev :=
    EUnsubAfterCall 0; EUnsubClose 0;
    EFrame (FNotif (Some 7%N) 99%N); ERNotifySend].
 
+(* evaluated as one boolean, so that the kernel re-checks a single vm_compute and no state is printed *)
+Definition routing_witness_ok : bool :=
+  match wrun routing_witness winit with
+  | Some w => negb (w_substraddle w) && match w_upc w 0 with UDone true => true | _ => false end && w_panic w
+  | None => false
+  end.
+Lemma routing_witness_ok_true : routing_witness_ok = true.
+Proof. vm_compute. reflexivity. Qed.
+
 Theorem ws_routing_refuted :
   exists evs w, wrun evs winit = Some w /\ w_substraddle w = false /\ w_upc w 0 = UDone true /\
                 w_panic w = true.
 Proof.
   exists routing_witness.
-  destruct (wrun routing_witness winit) as [w|] eqn:E; [|vm_compute in E; discriminate].
+  pose proof routing_witness_ok_true as X. unfold routing_witness_ok in X.
+  destruct (wrun routing_witness winit) as [w|]; [|discriminate X].
   exists w. split; [reflexivity|].
-  assert (X : match wrun routing_witness winit with
-              | Some w => negb (w_substraddle w) && match w_upc w 0 with UDone true => true | _ => false end
-                          && w_panic w
-              | None => false end = true) by (vm_compute; reflexivity).
-  rewrite E in X. apply andb_prop in X. destruct X as [X P]. apply andb_prop in X. destruct X as [S U].
+  apply andb_prop in X. destruct X as [X P]. apply andb_prop in X. destruct X as [S U].
   repeat split.
   - destruct (w_substraddle w); [discriminate|reflexivity].
   - destruct (w_upc w 0) as [| | |[]]; try discriminate. reflexivity.
